@@ -61,6 +61,7 @@ type Thread struct {
 	point   string // description of the pending point
 	panicV  interface{}
 	rng     *mrand.ChaCha8
+	fn      func() // RunFree only
 }
 
 type event struct {
@@ -96,6 +97,7 @@ type Scheduler struct {
 	unlockGen atomic.Uint64
 	Watchdog time.Duration
 	MaxSteps int
+	free     bool // RunFree: threads are plain goroutines
 }
 
 var active atomic.Pointer[Scheduler]
@@ -111,6 +113,10 @@ func New() *Scheduler {
 func (s *Scheduler) Go(name string, f func()) *Thread {
 	t := &Thread{ID: len(s.threads), Name: name, s: s, state: stNew, resume: make(chan struct{}, 1), point: "start"}
 	s.threads = append(s.threads, t)
+	if s.free {
+		t.fn = f
+		return t
+	}
 	go func() {
 		s.byGoid.Store(goid(), t)
 		defer func() {
